@@ -313,9 +313,27 @@ fn c16(tier: &str) -> Vec<String> {
     v
 }
 
+fn c01(tier: &str) -> Vec<String> {
+    let mut v = vec![];
+    for row in 0..24 {
+        for form in ["plain", "try", "send"] {
+            v.push(format!("fmt01:row={}:form={}:tier={}", row, form, tier));
+        }
+        // delimiter-bearing strings: only the construction rule applies
+        v.push(format!("fmt01:row={}:form=try:tier=quick:dirty=1", row));
+    }
+    v
+}
+
+fn c04(tier: &str) -> Vec<String> {
+    (0..24).map(|row| format!("fmt04:row={}:tier={}", row, tier)).collect()
+}
+
 pub fn instances(prop: &str, tier: &str) -> Vec<String> {
     let q = |v: Vec<String>| v.into_iter().map(|s| bounded(s, tier)).collect::<Vec<_>>();
     match prop {
+        "C01" => c01(tier),
+        "C04" => c04(tier),
         "C08" => q(c08(tier)),
         "C09" => q(c09(tier)),
         "C10" => q(c10(tier)),
